@@ -10,6 +10,12 @@ COMMON_NOTE = ('Trusted base: z3 4.x/5.1 (python3-vt), the symx forking engine, 
                'reals), sizes beyond the stated bounds, GPU, complex dtypes. ')
 
 CHECKS = {
+ 'C10': dict(
+    text='The adjacency matrix of the input graph is a vector of solver variables and the symbolic executor partitions the whole space of graphs up to the vertex bound; on every path the real tree_decomposition / min_fill / quickbb / minor_min_width code runs '
+         'and the result is checked for validity (tree, vertex and edge cover, running intersection); optimality of acb and quickbb and the bracket lower <= tw <= upper are judged against an independent SMT treewidth oracle (ordering-based encoding). '
+         'Right level: small graphs with isolated vertices / several components are exactly the rare inputs, and exhaustive coverage up to n=5/6 is affordable.',
+    note='Bounds: all simple graphs on <=5 (quick) / <=6 (thorough) labelled vertices x 3 methods. Larger graphs (the benchmark .gr files) are outside the claim.',
+    technique='bounded symbolic execution (z3 path forking) + SMT treewidth oracle', design='5/C10'),
  'C03': dict(
     text='sum_product followed by back-propagation is executed on the z3-valued tensor model (autograd.Function modelled by per-storage-cell cotangent accumulation; SumProduct.backward, J/J_log, multi_solve(transpose), multi_mv, project run as is) '
          'with symbolic weights and a symbolic output cotangent; per weight entry the solver decides equality with sum_j c_j dZ_j/dw from forward-mode (dual number) differentiation of the definitional sum-product. Right level: an identity between two '
